@@ -160,9 +160,8 @@ func (self *Interpreter) forStatement(node ast.AnalyzedForStatement) *value.Inte
 	// grows the list never terminates and nested loops over the same value share one cursor.
 	switch iterable := (*iterVal).(type) {
 	case value.ValueList:
-		snapshot := make([]*value.Value, len(*iterable.Values))
-		copy(snapshot, *iterable.Values)
-		iterVal = value.NewValueList(snapshot)
+		// (a deep snapshot: the loop variable does not alias the elements either, like on the VM)
+		iterVal = value.DeepClone(iterable)
 	case value.ValueString:
 		iterVal = value.NewValueString(iterable.Inner)
 	case value.ValueRange:
